@@ -6,18 +6,20 @@ import os
 import sys
 
 
-def run(ctx, module, gen_args, regen_args, consts, nsh=16, workers=1, parallel=16, timeout=3000, finish=True):
+def run(ctx, module, gen_args, regen_args, consts, nsh=16, workers=1, parallel=16, timeout=3000, finish=True, head=None):
     ctx.build_harness()
     base = ctx.scratch + "/tr.ndjson"
     rc, res, _ = ctx.harness(gen_args(base), timeout=timeout, env={"VERIF_SHARDS": str(nsh)})
     ctx.absorb(res)
     ctx.traces = 0
-    ctx.validate_traces(module, base, nsh, consts, ctx.prop, workers=workers, parallel=parallel, timeout=timeout)
+    kw = {"head": head} if head else {}
+    ctx.validate_traces(module, base, nsh, consts, ctx.prop, workers=workers, parallel=parallel, timeout=timeout, **kw)
     if finish:
-        ctx.finish(confirm_batch=batch_confirmer(ctx, module, regen_args, consts))
+        ctx.finish(confirm_batch=batch_confirmer(ctx, module, regen_args, consts, head))
 
 
-def batch_confirmer(ctx, module, regen_args, consts):
+def batch_confirmer(ctx, module, regen_args, consts, head=None):
+    kw = {"head": head} if head else {}
     def confirm_batch(cands):
         rp = os.path.join(ctx.scratch, "confirm.replay")
         with open(rp, "w") as f:
@@ -28,7 +30,7 @@ def batch_confirmer(ctx, module, regen_args, consts):
         saved, ctx.candidates = ctx.candidates, []
         tr = ctx.traces
         if os.path.exists(cbase + ".0") and os.path.getsize(cbase + ".0") > 0:
-            ctx.validate_traces(module, cbase, 1, consts, ctx.prop, workers=2)
+            ctx.validate_traces(module, cbase, 1, consts, ctx.prop, workers=2, **kw)
         again = {json.dumps(c["record"], sort_keys=True) for c in ctx.candidates}
         panics = {json.dumps(c["record"], sort_keys=True) for c in (res2.get("candidates") or [])}
         ctx.candidates = saved
@@ -37,7 +39,8 @@ def batch_confirmer(ctx, module, regen_args, consts):
     return confirm_batch
 
 
-def replay(ctx, module, regen_args, consts, path):
+def replay(ctx, module, regen_args, consts, path, head=None):
+    kw = {"head": head} if head else {}
     ctx.build_harness()
     rec = json.load(open(path))["record"]
     rp = os.path.join(ctx.scratch, "one.replay")
@@ -48,7 +51,7 @@ def replay(ctx, module, regen_args, consts, path):
         print("VIOLATION property=%s replay=%s" % (ctx.prop, path))
         sys.exit(1)
     if os.path.exists(base + ".0") and os.path.getsize(base + ".0") > 0:
-        ctx.validate_traces(module, base, 1, consts, ctx.prop, workers=2)
+        ctx.validate_traces(module, base, 1, consts, ctx.prop, workers=2, **kw)
     if ctx.candidates:
         print("VIOLATION property=%s replay=%s" % (ctx.prop, path))
         print(ctx.candidates[0]["what"], file=sys.stderr)
